@@ -1164,6 +1164,65 @@ def large_register_search(ctx, base):
     ctx.ob("C12_search_large_register", len([f for f in ctx.failures[bad0:] if not f["key"].endswith(":model")]) == 0, "search", "")
 
 
+def zero_prob_channel_search(ctx, base):
+    """Pauli noise channels whose term list contains probabilities exactly 0.0 and exactly one term of
+    probability 1.0 (in every position): the applied Pauli string is deterministic, so every outcome
+    sampled by the Clifford backend must have non-zero Born probability in the state vector obtained by
+    applying that Pauli string as gates (and equal the outcome when it is deterministic)."""
+    from qibo import gates
+
+    rng = ctx.rng
+    np.random.seed(rng.randrange(2**32))
+    bad0 = len(ctx.failures)
+    be = base.cliff_backend()
+    nshots = 20
+    cases = []
+    for i in range(90 if ctx.thorough else 36):
+        n = rng.randint(1, 3)
+        pre = []
+        for _ in range(rng.randint(0, 5) if i >= 6 else 0):
+            kind = rng.choice(["H", "S", "X", "CNOT"] if n > 1 else ["H", "S", "X"])
+            pre.append(("CNOT", tuple(rng.sample(range(n), 2))) if kind == "CNOT" else (kind, (rng.randrange(n),)))
+        k = rng.randint(1, min(2, n))
+        qs = tuple(rng.sample(range(n), k))
+        strings = ["".join(t) for t in itertools.product("IXYZ", repeat=k) if set(t) != {"I"}]
+        terms = rng.sample(strings, rng.randint(2, min(4, len(strings))))
+        hot = i % len(terms)  # the probability-1 term takes every position
+        cases.append((n, pre, qs, terms, hot))
+    for n, pre, qs, terms, hot in cases:
+        ops = [(t, 1.0 if j == hot else 0.0) for j, t in enumerate(terms)]
+        pre_src = [f"gates.{nm}({', '.join(map(str, q))})" for nm, q in pre]
+        chan_src = f"gates.PauliNoiseChannel({qs if len(qs) > 1 else qs[0]}, {ops})"
+        pauli_src = [f"gates.{P}({q})" for P, q in zip(terms[hot], qs) if P != "I"]
+        ctx.case(("zero-prob-channel", n, tuple(pre_src), chan_src))
+        ctx.stat("zero_prob_channel_hot_position_%d_of_%d" % (hot, len(terms)))
+        mk = lambda srcs: [eval(s_, {"gates": gates}) for s_ in srcs]  # noqa: E731
+        psi = np.asarray(base.sv_state(n, mk(pre_src + pauli_src))).reshape(-1)
+        born = np.abs(psi) ** 2
+        deterministic = born.max() > 1 - 1e-9
+        py = base.HEAD + f"c = Circuit({n})\nfor g in [{', '.join(pre_src + [chan_src, 'gates.M(*range(%d))' % n])}]:\n    c.add(g)\n" \
+            f"np.random.seed(3)\nr = CliffordBackend('numpy').execute_circuit(c, nshots={nshots})\n" \
+            f"from qibo import Circuit as _C\nu = _C({n})\nfor g in [{', '.join(pre_src + pauli_src)}]:\n    u.add(g)\n" \
+            f"psi = np.asarray(NumpyBackend().execute_circuit(u).state()) if u.queue else np.eye({2 ** n})[:, 0]\n" \
+            "for row in np.asarray(r.samples()).astype(int):\n    assert abs(psi[int(''.join(map(str, row)), 2)]) ** 2 > 1e-9, row\n"
+        try:
+            r = be.execute_circuit(base.build(n, mk(pre_src + [chan_src, "gates.M(*range(%d))" % n])), nshots=nshots)
+            S = np.asarray(r.samples()).astype(int)
+            idx = [int("".join(map(str, row)), 2) for row in S]
+            ok = S.shape == (nshots, n) and all(born[i] > 1e-9 for i in idx)
+            if ok and deterministic:
+                ok = all(i == int(np.argmax(born)) for i in idx)
+            obs = str(sorted({format(i, "0%db" % n) for i in idx}))
+        except Exception as e:  # noqa: BLE001
+            ok, obs = False, f"{type(e).__name__}: {e}"[:300]
+        if not ok:
+            ctx.fail("noise:zero-probability-term",
+                     f"CliffordBackend, {pre_src} then {chan_src} (the term {terms[hot]!r} has probability 1, the others exactly 0): a sampled outcome has Born probability zero after applying {terms[hot]!r}",
+                     py, expected="outcomes in " + str([format(i, "0%db" % n) for i in range(2 ** n) if born[i] > 1e-9]), observed=obs,
+                     broken=["C12_search_zero_probability_terms"])
+    ctx.ob("C12_search_zero_probability_terms", len(ctx.failures) == bad0, "search", "")
+
+
 def run_suites(ctx, base):
     cases = synth_correspondence(ctx, base)
     bm20_correspondence(ctx, base, cases)
@@ -1174,3 +1233,4 @@ def run_suites(ctx, base):
     result_order_search(ctx, base)
     large_register_search(ctx, base)
     stim_controlled_search(ctx, base)
+    zero_prob_channel_search(ctx, base)
